@@ -18,6 +18,7 @@ from . import common
 ID = "C03"
 RUNS = {"quick": 20000, "thorough": 1500000}
 TIME = {"quick": 75, "thorough": 1500}
+WALL = 300.0
 RULE_TEXT = (
     "case kinds: T = seeded (winner, ballot list with duplicates/exhausted/not-winner-led/id+voter-set ballots, threshold in [1, tally]) passed to "
     "fractional_transfer or random_transfer under a scheduled random seam; S = seeded STV run (fractional or random transfer) with a per-round weight "
